@@ -4,6 +4,8 @@ package validator
 
 import (
 	"encoding/json"
+	"io"
+	"os"
 	"time"
 
 	"github.com/aml-org/amf-custom-validator/internal/types"
@@ -212,4 +214,76 @@ func verifReportParts(text string) (rep types.ObjectMap, ctx types.ObjectMap, ok
 	rep, _ = enc[0].(map[string]any)
 	ctx, _ = inst["@context"].(map[string]any)
 	return rep, ctx, rep != nil
+}
+
+// verifSilentProfiles: profiles that take the library through its less usual branches - names listed
+// under a level without a definition, an empty level, a validation nobody lists, a profile that does
+// not parse.
+var verifSilentProfiles = []string{
+	verifProfile,
+	"#%Validation Profile 1.0\nprofile: Levels\nprefixes:\n  ex: http://example.org/\nviolation:\n  - v1\n  - not-defined\nwarning:\n  - defined-validaton\ninfo: []\nvalidations:\n  v1:\n    message: m\n    targetClass: ex.C\n    propertyConstraints:\n      ex.p:\n        minCount: 1\n  unlisted:\n    message: m\n    targetClass: ex.C\n    propertyConstraints:\n      ex.q:\n        maxCount: 0\n",
+	"#%Validation Profile 1.0\nprofile: Broken\nviolation:\n  - v1\nvalidations:\n  v1:\n    message: m\n    propertyConstraints:\n      ex.p:\n        minCount: 1\n",
+	"profile: [not, a, name\n",
+}
+
+// VerifC18LibrarySilent: the command line prints what the library returns and nothing else reaches
+// its standard output - so the library itself writes nothing there, whatever the profile, the data
+// and the outcome of each stage (debug switched off).
+func VerifC18LibrarySilent() {
+	prof := verifSilentProfiles[v.Choice("profile", len(verifSilentProfiles))]
+	v.Scope("v")
+	switch v.Choice("entry", 4) {
+	case 0:
+		GenerateRego(prof, false, nil)
+	case 1:
+		Validate(prof, "<<data text>>", false, nil)
+	case 2:
+		compiled, err := ProcessProfile(prof, false, nil)
+		if err == nil {
+			ValidateCompiled(compiled, "<<data text>>", false, nil)
+		}
+	default:
+		verifGuardPanic(func() { ProcessInput("<<data text>>", false, nil) })
+	}
+	v.Reach("returned")
+	v.Assert("C18.library-writes-nothing-to-stdout", v.Stdout() == "")
+}
+
+// VerifC18LibrarySilentNative: the same call with the process's standard output redirected to a file.
+func VerifC18LibrarySilentNative() {
+	prof := verifSilentProfiles[v.ReplayInt("profile")]
+	data := `{"@id": "http://x/a", "@type": "http://example.org/C"}`
+	if v.ReplayBool("flag:v.decode.err") {
+		data = "not json"
+	} else if v.ReplayBool("flag:v.flatten.err") {
+		data = `{"@context": 42, "@id": "x"}`
+	}
+	f, err := os.CreateTemp("", "verif-stdout")
+	if err != nil {
+		panic(err)
+	}
+	defer os.Remove(f.Name())
+	saved := os.Stdout
+	os.Stdout = f
+	func() {
+		defer func() { recover() }()
+		switch v.ReplayInt("entry") {
+		case 0:
+			GenerateRego(prof, false, nil)
+		case 1:
+			Validate(prof, data, false, nil)
+		case 2:
+			compiled, err := ProcessProfile(prof, false, nil)
+			if err == nil {
+				ValidateCompiled(compiled, data, false, nil)
+			}
+		default:
+			ProcessInput(data, false, nil)
+		}
+	}()
+	os.Stdout = saved
+	f.Seek(0, 0)
+	written, _ := io.ReadAll(f)
+	f.Close()
+	v.Assert("C18.library-writes-nothing-to-stdout", len(written) == 0)
 }
